@@ -248,4 +248,32 @@ def decodePacket (body : Bytes) : Option (Option Packet) :=
           | some (value, rest) =>
             if rest.length > 0 then none else (decodeAnyValue url value).map some
 
+
+/-! ## what a protobuf parser accepts (specification of "well-formed") -/
+
+/-- conn.proto `Msg { uint32 channel_id = 1; uint32 eof = 2; bytes bytes = 3 }`: a value is
+    well-formed when it is a sequence of COMPLETE fields with these numbers and wire types. -/
+def wfMsgValueAux : Nat → Bytes → Bool
+  | 0, v => v.length == 0
+  | fuel+1, v =>
+    if v.length = 0 then true else
+    match key? v with
+    | none => false
+    | some (num, typ, rest) =>
+      if (num = 1 ∨ num = 2) ∧ typ = 0 then
+        match uvarint? rest with
+        | none => false
+        | some (_, rest') => wfMsgValueAux fuel rest'
+      else if num = 3 ∧ typ = 2 then
+        match byteSlice? rest with
+        | none => false
+        | some (_, rest') => wfMsgValueAux fuel rest'
+      else false
+
+def wfMsgValue (v : Bytes) : Bool := wfMsgValueAux v.length v
+
+/-- the body of a frame carrying `Any{"/p2p.Msg", value}`. -/
+def msgBody (value : Bytes) : Bytes :=
+  0x0a :: (putUvarint urlMsg.length ++ urlMsg) ++ (0x12 :: (putUvarint value.length ++ value))
+
 end GnoVerif.C43
